@@ -522,6 +522,14 @@ def c04_oracle(c, obs):
         weighted = bool(k["w"])
         if weighted and any(w is None for (_, _, w) in so["edges"]):
             continue    # outside the property's quantifier
+        if weighted and any(w is not None and w < 0 for (_, _, w) in so["edges"]):
+            # a negative weight (corpus witness of F22 only; never generated): outside the property's
+            # quantifier - the reference below is plain Dijkstra.  The call still takes part in the
+            # model correspondence (outcome - Err ContradictoryPaths included - and answer), and it must
+            # not panic: C20
+            if ent["code"] in (100, 101):
+                msgs.append("%s: panic / no answer (outcome %d)" % (tag, ent["code"]))
+            continue
         if ent["code"] != 0:
             msgs.append("%s: outcome %d on a valid call" % (tag, ent["code"]))
             continue
@@ -920,7 +928,11 @@ C04.manifest = {
             "successors_vec with the edge store. The name-level collection of multi_source / all_pairs is proved in "
             "C08_reachable_multi_source / C08_reachable_all_pairs. Non-vacuity: C04_reachable_hypotheses_nonvacuous (a "
             "graph built by the transcribed constructor: reachable, WF, small, non-negative weights, all entry points "
-            "Ok). Integer weights (exact in binary64); a NaN weight is no arc. "
+            "Ok). Integer weights (exact in binary64); a NaN weight is no arc. Negative weights are outside the "
+            "property and are not generated; ONE corpus witness (corpus/C04/F22_negative_weight.json, the graph of "
+            "F22) is run on every check so that the model's Err ContradictoryPaths outcomes of single_source / "
+            "multi_source / all_pairs are compared with the code (flag 46 is 0 there: the harness observes the "
+            "negative stored weight; the reference oracle skips its weighted calls). "
             "Trusted: Coq kernel + vm_compute, harness/printers/diff. Axioms: none.",
     "technique": "Coq proof of the transcribed algorithm (loop invariants) + verified checkers + differential "
                  "correspondence + reference oracle",
@@ -951,7 +963,17 @@ C08.manifest = {
             "the per-call statement, cutoff_exact, target_reported, uniqueness of the distance, triangle inequality, "
             "symmetry on a symmetric adjacency, optimal substructure. End to end (Proofs/DijkstraWF.v): on every "
             "reachable graph the three entry points return Ok and agree on node names (C08_reachable_multi_source, "
-            "C08_reachable_all_pairs, C08_reachable_involving). The metamorphic relations are also checked on "
+            "C08_reachable_all_pairs, C08_reachable_involving). The agreement covers the FAILURE case too (since the "
+            "repair of F22 multi_source / all_pairs propagate the per-source Err with `?` instead of unwrapping it): on "
+            "every graph state, once the up-front name checks have passed, multi_source returns Ok iff every per-source "
+            "call does and otherwise fails exactly like the first listed source whose call is not Ok - same Error "
+            "kind, same panic site (C08_model_multi_source_ok_iff, C08_model_multi_source_first_failure; all_pairs' "
+            "region per node index: C08_model_all_pairs_first_failure); and on every WF graph, for ANY stored weights "
+            "and any cutoff, multi_source / all_pairs return EITHER the map of the per-source answers (then every "
+            "per-source call returned Ok) OR Err ContradictoryPaths, and then some listed source's / some node's "
+            "single_source returns exactly that error - no third outcome (C08_reachable_multi_source_any_weights, "
+            "C08_reachable_all_pairs_any_weights; Err branch non-vacuous: C08_any_weights_err_branch_nonvacuous on the "
+            "graph 1->2 (1), 1->3 (2), 3->2 (-5)). The metamorphic relations are also checked on "
             "the implementation's own answers by the oracle.",
     "note": "The agreement of the three entry points at the level of node names, formerly validated per generated "
             "case only, is now proved for every graph state satisfying the invariant WF (every reachable graph), "
